@@ -127,15 +127,29 @@ impl<'a> RunCtx<'a> {
         let mut edges = vec![];
         for (s, d, lab) in &g.edges {
             let v = self.sym(lab, table);
-            let key = v.to_string();
+            // a symbol's identity is its label text (value, min, max), not its denotation: under
+            // (?i) two different labels (e.g. final and non-final sigma) may denote the same set
+            let key = format!("{:?}", lab);
             let k = *sym_index.entry(key).or_insert_with(|| {
                 syms.push(v);
                 syms.len()
             });
             edges.push(json!([s, d, k]));
         }
-        json!({"start": g.start, "finals": g.finals, "nodes": g.nodes, "edges": edges, "syms": syms,
-               "order": g.dfs_order})
+        // adjacency index: adj[s] = edges leaving node s (nodes are numbered 0..n-1 by petgraph)
+        let n = g.nodes.iter().copied().max().map(|m| m + 1).unwrap_or(0);
+        let mut adj: Vec<Vec<Value>> = vec![vec![]; n];
+        for e in &edges {
+            let s = e[0].as_u64().unwrap() as usize;
+            adj[s].push(e.clone());
+        }
+        let contiguous = g.nodes.len() == n;
+        let mut v = json!({"start": g.start, "finals": g.finals, "nodes": g.nodes, "edges": edges, "syms": syms,
+               "order": g.dfs_order});
+        if contiguous {
+            v["adj"] = json!(adj);
+        }
+        v
     }
 
     fn expr(&mut self, e: &VExpr, table: &mut SetTable) -> Value {
